@@ -212,10 +212,18 @@ CHECKS = {
               "virtual gaps of 0 / 1 us / 1 ms / 100 ms / 600 ms, and with RegisterRemoteSKI / CancelPairingWithSKI / UnregisterRemoteSKI at "
               "drawn positions; GOMAXPROCS 1/2/16. Oracle: the hub's own state sequence is read back after every call; per SKI the last "
               "notification equals PairingDetailForSki at quiescence and the delivered states form a subsequence of the hub's sequence. "
-              "non-trivial = two changes less than 500 ms apart; distinct = hash of the script"),
+              "non-trivial = two changes less than 500 ms apart (bubble) / a pair with >= 3 distinct notified states and >= 2 connections (hub level); "
+              "distinct = hash of the script. Hub level: C05/C10-style scenarios and deliberate double connections on real hubs; at a stable point the last "
+              "ServicePairingDetailUpdate per SKI must equal PairingDetailForSki"),
         runs=[dict(engine="hubsim", test="TestC18", quick=dict(checks=12000, shards=4, timeout=600),
-                   thorough=dict(checks=400000, shards=16, timeout=3000))],
-        assumptions=["the order in which simultaneously due notification goroutines run is sampled by the Go scheduler (GOMAXPROCS 1/2/16), not enumerated"],
+                   thorough=dict(checks=400000, shards=16, timeout=3000)),
+              # hub level: real connections make the state changes (double connections, reconnects after cuts, late approvals, cancels
+              # and unregisters while a peer keeps knocking); at a stable point the last notification equals PairingDetailForSki
+              dict(engine="hubnet", test="TestC18Hub", shrinktime="1s", quick=dict(checks=8, shards=4, timeout=1200),
+                   thorough=dict(checks=96, shards=8, timeout=6000), env=dict(VERIF_BATCH="8"))],
+        assumptions=["the order in which simultaneously due notification goroutines run is sampled by the Go scheduler (GOMAXPROCS 1/2/16), not enumerated",
+                     "hub level (real time): a stable point is 2.4 s without any callback or TCP accept and two equal samples 700 ms apart; scenarios that "
+                     "do not settle are inconclusive, never violations"],
     ),
     "C05": dict(
         level="exploration",
